@@ -170,6 +170,26 @@ def core_models(I, st, caller, func, args, argtys, dest_ty):
                     v = args[1] if idx == 1 else args[0]
                 outs.append(Outcome("return", v, s2))
         return outs
+    # ---- provided methods of PartialOrd on user types: defined through the type's own partial_cmp body
+    m = re.match(r"^<(.*) as PartialOrd(<.*>)?>::(lt|le|gt|ge)$", f)
+    if m and norm_type(m.group(1)) not in INT_TYPES:
+        outs = []
+        pc_f = "<%s as PartialOrd%s>::partial_cmp" % (m.group(1), m.group(2) or "")
+        for o in I.dispatch_call(st, caller, pc_f, args, argtys, "Option<Ordering>"):
+            if o.kind != "return":
+                outs.append(o)
+                continue
+            for c, idx in split_enum(I, o.state, o.value, pc_f):
+                s2 = o.state.fork()
+                s2.assume(c)
+                if idx == 0:
+                    outs.append(Outcome("return", z3.BoolVal(False), s2))
+                    continue
+                ordv = o.value.payloads[1][0]
+                d = ordv.discr if z3.is_expr(ordv.discr) else z3.IntVal(ordv.discr)
+                r = {"lt": d < 0, "le": d <= 0, "gt": d > 0, "ge": d >= 0}[m.group(3)]
+                outs.append(Outcome("return", z3.simplify(r), s2))
+        return outs
     # ---- Ordering helpers -------------------------------------------------------------------
     m = re.match(r"^(?:std::cmp::)?Ordering::(is_eq|is_ne|is_lt|is_gt|is_le|is_ge|reverse|then)$", f)
     if m:
@@ -232,6 +252,8 @@ def core_models(I, st, caller, func, args, argtys, dest_ty):
     if m:
         # blanket impl: U::from(self)
         return I.dispatch_call(st, caller, "<%s as From<%s>>::from" % (m.group(2), m.group(1)), args, argtys, dest_ty)
+    if re.match(r"^<(Arc|Box|Rc)<.*> as (Deref|AsRef<.*>|Borrow<.*>)>::(deref|as_ref|borrow)$", f):
+        return ret(st, args[0])  # smart pointers are transparent in the value model
     if re.match(r"^std::mem::drop::<.*>$", f) or f.startswith("std::mem::forget::<"):
         return ret(st, UNIT)
     if re.match(r"^<(.*) as (Try)>::branch$", f):
@@ -273,7 +295,7 @@ def core_models(I, st, caller, func, args, argtys, dest_ty):
     return None
 
 
-ENUM_TABLE_EXTRA = {"ControlFlow": ["Continue", "Break"]}
+ENUM_TABLE_EXTRA = {"ControlFlow": ["Continue", "Break"], "Poll": ["Ready", "Pending"]}
 
 
 # ---------------------------------------------------------------------------------------------
@@ -387,6 +409,17 @@ def abs_models(I, st, caller, func, args, argtys, dest_ty):
         return ret(st, z3.IntVal(0))  # logging disabled: static filter level Off
     if re.match(r"^(slog::)?Level::as_usize$", f):
         return ret(st, z3.IntVal(9))
+    if re.match(r"^<(Result|Option)<.*> as anyhow::Context<.*>>::(context|with_context)", f):
+        v = deref_all(I, st, args[0])
+        if isinstance(v, EnumV) and norm_type(v.name) == "Result":
+            pl = dict(v.payloads)
+            pl[1] = (Opaque("anyhow::Error"),)
+            return ret(st, EnumV("Result", v.discr, pl))
+        if isinstance(v, EnumV) and norm_type(v.name) == "Option":
+            d = v.discr
+            nd = (0 if d == 1 else 1) if isinstance(d, int) else z3.If(d == 1, 0, 1)
+            return ret(st, EnumV("Result", nd, {0: v.payloads.get(1, (None,)), 1: (Opaque("anyhow::Error"),)}))
+        raise Unencodable("with_context on %r" % (v,))
     if f.startswith("anyhow::") or re.match(r"^<.* as anyhow::", f) or "anyhow::kind::" in f or "anyhow::__private" in f:
         return ret(st, Opaque("anyhow::Error"))
     return None
